@@ -103,6 +103,9 @@ pub trait Spaced {
 	async fn arr(&self, a_b: Shape, c: Option<Tagged>) -> RpcResult<(Shape, Option<Tagged>)>;
 	#[method(name = "mapAsync", param_kind = map, aliases = ["ns_map_async_alias"])]
 	async fn map_async(&self, point: Point, camelCase: bool) -> RpcResult<(Point, bool)>;
+	/// parameter names that are neither their own snake_case nor their own camelCase form
+	#[method(name = "odd", param_kind = map)]
+	fn odd(&self, type_: String, #[argument(rename = "userID")] user: Option<u64>, _s: bool, a__b: u8) -> RpcResult<(String, Option<u64>, bool, u8)>;
 }
 
 #[rpc(client, server, namespace = "dot", namespace_separator = ".")]
@@ -182,6 +185,9 @@ impl SpacedServer for Srv {
 	#[allow(non_snake_case)]
 	async fn map_async(&self, point: Point, camelCase: bool) -> RpcResult<(Point, bool)> {
 		self.rec("map_async", (point, camelCase))
+	}
+	fn odd(&self, type_: String, user: Option<u64>, _s: bool, a__b: u8) -> RpcResult<(String, Option<u64>, bool, u8)> {
+		self.rec("odd", (type_, user, _s, a__b))
 	}
 }
 
@@ -321,6 +327,7 @@ pub enum Call17 {
 	M(u64, String, Option<Vec<u8>>),
 	Arr(Shape, Option<Tagged>),
 	MapAsync(Point, bool),
+	Odd(String, Option<u64>, bool, u8),
 	X(Vec<Point>),
 	Sub(Vec<Point>, Option<String>),
 	Shapes(Vec<Shape>, u64),
@@ -359,6 +366,7 @@ fn arb_call() -> BoxedStrategy<Call17> {
 		3 => (arb_u64(), arb_s(), proptest::option::of(proptest::collection::vec(any::<u8>(), 0..4))).prop_map(|(a, b, c)| Call17::M(a, b, c)),
 		2 => (arb_shape(), proptest::option::of(arb_tagged())).prop_map(|(a, b)| Call17::Arr(a, b)),
 		2 => (arb_point(), any::<bool>()).prop_map(|(a, b)| Call17::MapAsync(a, b)),
+		2 => (arb_s(), proptest::option::of(arb_u64()), any::<bool>(), any::<u8>()).prop_map(|(a, b, c, d)| Call17::Odd(a, b, c, d)),
 		2 => proptest::collection::vec(arb_point(), 0..3).prop_map(Call17::X),
 		2 => (proptest::collection::vec(arb_point(), 0..4), proptest::option::of(arb_s())).prop_map(|(a, b)| Call17::Sub(a, b)),
 		2 => (proptest::collection::vec(arb_shape(), 0..4), arb_u64()).prop_map(|(a, b)| Call17::Shapes(a, b)),
@@ -595,6 +603,20 @@ impl SubCheck for Stubs {
 					};
 					judge!("map_async", Some(name), (a.clone(), *b), (a.clone(), *b), got);
 				}
+				Call17::Odd(a, b, cc, d) => {
+					opt_variation = b.is_none();
+					let got = match via {
+						Via::ByName(_) | Via::OmitTail(_) => {
+							let mut pairs = vec![("type_".to_string(), to_v(a)), ("_s".to_string(), to_v(cc)), ("a__b".to_string(), to_v(d))];
+							if let Some(b) = b {
+								pairs.push(("userID".to_string(), to_v(b)));
+							}
+							seen(c.request::<(String, Option<u64>, bool, u8), _>("ns_odd", obj(pairs)).await)
+						}
+						_ => seen(SpacedClient::odd(c, a.clone(), *b, *cc, *d).await),
+					};
+					judge!("odd", Some("ns_odd"), (a.clone(), *b, *cc, *d), (a.clone(), *b, *cc, *d), got);
+				}
 				Call17::X(a) => {
 					non_scalar = true;
 					let (name, got) = match via {
@@ -733,7 +755,7 @@ fn to_camel(s: &str) -> String {
 }
 
 pub fn check(ctx: &mut Ctx) {
-	ctx.rule = "programs: a fixed family of 4 #[rpc(client, server)] traits / 14 methods compiled into the harness (0..4 params, trailing Options, param_kind array/map, #[argument(rename)], namespace with default and custom separator, aliases, sync/async/blocking, with_extensions, \
+	ctx.rule = "programs: a fixed family of 4 #[rpc(client, server)] traits / 15 methods compiled into the harness (0..4 params, trailing Options, param_kind array/map, #[argument(rename)], namespace with default and custom separator, aliases, sync/async/blocking, with_extensions, \
 		subscriptions with params / item types / notification-name override / unsubscribe aliases / by-name params / sync handler); inputs: generated argument values (integers at type boundaries, Unicode strings, nested structs, externally and internally tagged enums, Vec, BTreeMap, Option, tuples) and generated server results/errors. \
 		Each call goes stub -> real async client -> wire text -> Methods::raw_json_request -> server trait impl (which records its arguments). Also hand-built requests the stubs never emit: aliases, by-name requests with declared / snake_case / camelCase keys, trailing optionals omitted in arrays and objects. \
 		Oracle: the server method of that name ran once with arguments equal (PartialEq) to the stub's, the wire method name is the declared one, the client gets exactly the returned value / error object, subscription items arrive in order. Non-trivial = a non-scalar argument or an optional-tail variation; distinct by case value."
